@@ -699,6 +699,32 @@ func runOneHistory(cfg ConcCfg, seed uint64, cas, h int, res *ConcRes) {
 	}
 	t := tick()
 	hist = append(hist, &histOp{Client: cfg.Clients, Kind: "final", Dump: dumpString(got), Call: t, Ret: tick()})
+	if cfg.Name == "C10" && !cfg.NoCheck && len(werr.Msgs) == 0 {
+		// C10 after a concurrent history: flush, restart, nothing a client can
+		// observe may have changed
+		srv.WaitIdle()
+		srv.Flush()
+		srv.Shutdown()
+		srv = StartSrv(d, srv.Opts)
+		got2, werr2 := walkTree(srv.API, srv.Root, nil)
+		for _, m := range werr2.Msgs {
+			addV("twin", "walk after a restart that followed the history: %s", m)
+		}
+		if a, b := dumpString(got), dumpString(got2); a != b {
+			addV("twin", "the tree after a clean restart differs from the tree the running server showed after the history (- running, + restarted):\n%s\nhistory:\n%s", diffDumps(a, b), renderHistory(hist))
+		} else {
+			h1, h2 := handleMap(got), handleMap(got2)
+			for p, fh := range h1 {
+				if !bytes.Equal(fh, h2[p]) {
+					addV("twin", "%s has handle %x before and %x after the restart", p, fh, h2[p])
+					break
+				}
+			}
+			concMu.Lock()
+			res.Stats.Add("restart-compared-after-concurrent-history")
+			concMu.Unlock()
+		}
+	}
 	if cfg.HalfFreed {
 		// a half-freed inode legitimately keeps its blocks until its number
 		// is handed out again (C05): if no creation of the history succeeded
